@@ -123,6 +123,23 @@ def run(tier, lab):
             gens[k - 1].append({"k": k, "n": n})
         scs.append({"id": len(scs), "msgs": msgs, "size": [0] * nk + [rng.choice([700, 1500, 3000, 4000]) for _ in order],
                     "delivered": gens, "echoed": gens, "pipelined": True})
+    # a slow service: data and the end of the stream arrive while it is not reading (a chunk of 333 bytes makes the echo service
+    # pause 40 ms): everything sent before the end of the stream still has to reach it
+    for nk in (1, 2, 3):
+        for tail in ([8], [8, 4000], [1, 1, 1]):
+            msgs = [{"m": "hello", "k": k, "n": 0} for k in range(1, nk + 1)]
+            size = [0] * nk
+            gens = [[] for _ in range(nk)]
+            n = 0
+            for k in range(1, nk + 1):
+                for sz in [333] + tail:
+                    n += 1
+                    msgs.append({"m": "data", "k": k, "n": n})
+                    size.append(sz)
+                    gens[k - 1].append({"k": k, "n": n})
+                msgs.append({"m": "eof", "k": k, "n": 0})
+                size.append(0)
+            scs.append({"id": len(scs), "msgs": msgs, "size": size, "delivered": gens, "echoed": gens, "pipelined": True})
     port = free_port()
     slim = [{"id": s["id"], "msgs": s["msgs"], "size": s["size"], "pipelined": s.get("pipelined", False)} for s in scs]
     results = {r["id"]: r for r in lib.run_sharded(lab, "c16", slim, shards=1, extra_args=["-port", str(port), "-par", "12"], timeout=2400)}
